@@ -197,6 +197,24 @@ def call_ext(I, e, s, name, args, kwargs):
         if name.endswith("json.loads") or name.endswith("json.load"):
             return ANY
         return AV(["str"])
+    if name.startswith("math."):
+        fn = name.split(".")[-1]
+        numk = frozenset(["int", "float", "bool"])
+        for a in args:
+            I.need(a.kinds <= numk, "TypeError", e, "%s of a non-number" % name, a.describe())
+            # math functions work on C doubles: an integer beyond 1.8e308 cannot be converted
+            I.need(not ("int" in a.kinds and a.big), "OverflowError", e, "%s converts an integer of unbounded size to a float" % name, a.describe())
+        if fn in ("isnan", "isinf", "isfinite"):
+            return AV(["bool"])
+        if fn in ("floor", "ceil", "trunc"):
+            for a in args:
+                I.need(not ("float" in a.kinds), "OverflowError", e, "%s of a float that may be infinite" % name, a.describe())
+            return AV(["int"])
+        if fn in ("fmod", "remainder"):
+            if len(args) > 1:
+                I.need(args[1].pos or (args[1].const is not None and args[1].const[0] == "c" and args[1].const[1]), "ValueError", e, "%s by a value not known to be non-zero" % name, args[1].describe())
+            return AV(["float"])
+        return AV(["float"])
     if name.startswith("re."):
         fn = name.split(".")[-1]
         if fn in ("search", "match", "fullmatch", "compile", "sub", "split", "findall"):
